@@ -643,7 +643,10 @@ def genInvalidCases (seed n : Nat) : List String := Id.run do
       let head := fileHead si2 total (List.replicate 16 0) 16
       let reader := ["sample", "byte", "chan", "iter"].getD (i / 2 % 4) "sample"
       let body := if twice then Spec.serialize fr ++ Spec.serialize fr else Spec.serialize fr
-      let (cls', must') := if overshoot && cls == "unchanged" || overshoot && !must && fr.hdr.blockSize > 14 then ("frame-overshoots-total", cls == "unchanged") else (cls, must)
+      -- two frames whose first exactly fills the declared total: the second is trailing data the readers never look at
+      let trailing := overshoot && twice && total == fr.hdr.blockSize
+      let (cls', must') := if trailing then ("trailing-frame-after-total", false)
+        else if overshoot && cls == "unchanged" || overshoot && !must && fr.hdr.blockSize > 14 then ("frame-overshoots-total", cls == "unchanged") else (cls, must)
       out := s!"decfile reader={reader} endian=le chunk=4096 bytes={bytesToHex (head ++ body)} class={cls'} expect={if must' then "reject" else "any"} kind=invalid" :: out
   return out.reverse
 
